@@ -716,7 +716,7 @@ func projectName(details *types.ConfigDetails, opts *Options) error {
 			}
 		}
 	}
-	if !opts.SkipInterpolation {
+	if opts.Interpolate != nil && !opts.SkipInterpolation {
 		interpolated, err := interp.Interpolate(
 			map[string]interface{}{"name": pjNameFromConfigFile},
 			*opts.Interpolate,
